@@ -182,6 +182,10 @@ static void op_select(void) {
     JUDGE(uiv_equal(s1, st), key, "MDC(%d x %d, select %d, %s): %d threads and 1 thread select different objects", n, d, want, MET[metric], th);
     h = uiv_hash(st, h); DelUIVector(&s1); DelUIVector(&st);
   } else if (method == 1) {     /* max-min dissimilarity, both implementations */
+    /* the same objects far from the origin (+1e7 on every coordinate): distances are differences, so nothing changes for an
+     * implementation that subtracts coordinates; the centroid of 1e7-sized numbers carries ~1e-8 of rounding, hence tie scale 100 */
+    double tsc = 1.0;
+    if (!H_TSAN && (n <= 13 || vx_thorough()) && vx_choose("offset", 2)) { tsc = 100.0; for (size_t i = 0; i < m->row; i++) for (size_t j = 0; j < m->col; j++) m->data[i][j] += 1e7; }
     uivector *a1, *at, *f1, *ft; initUIVector(&a1); initUIVector(&at); initUIVector(&f1); initUIVector(&ft);
     MaxDis(m, (size_t)want, metric, a1, 1); MaxDis_Fast(m, (size_t)want, metric, f1, 1);
     race_reset(); MaxDis(m, (size_t)want, metric, at, (size_t)th); vx_transition(1); race_check("MaxDis", tc);
@@ -191,8 +195,8 @@ static void op_select(void) {
     JUDGE(va, key, "MaxDis(%d x %d, select %d, %s, %d threads): %zu indices returned, not %d distinct ones below %d", n, d, want, MET[metric], th, at->size, want, n);
     snprintf(key, sizeof key, "selection-valid|MaxDis_Fast|%s", cl);
     JUDGE(vf, key, "MaxDis_Fast(%d x %d, select %d, %s, %d threads): %zu indices returned, not %d distinct ones below %d", n, d, want, MET[metric], th, ft->size, want, n);
-    if (va) tie |= judge_maxmin("MaxDis", m, metric, at, 1.0, MET[metric]);
-    if (vf) tie |= judge_maxmin("MaxDis_Fast", m, metric, ft, 1.0, MET[metric]);
+    if (va) tie |= judge_maxmin("MaxDis", m, metric, at, tsc, MET[metric]);
+    if (vf) tie |= judge_maxmin("MaxDis_Fast", m, metric, ft, tsc, MET[metric]);
     if (va && vf && !tie) { snprintf(key, sizeof key, "maxdis-vs-fast|MaxDis,MaxDis_Fast|%s", cl); JUDGE(uiv_equal(at, ft), key, "(%d x %d, select %d, %s): the two max-min implementations return different sequences", n, d, want, MET[metric]); }
     snprintf(key, sizeof key, "thread-independence|MaxDis|%s", tc); JUDGE(uiv_equal(a1, at), key, "MaxDis(%d x %d, select %d, %s): %d threads and 1 thread differ", n, d, want, MET[metric], th);
     snprintf(key, sizeof key, "thread-independence|MaxDis_Fast|%s", tc); JUDGE(uiv_equal(f1, ft), key, "MaxDis_Fast(%d x %d, select %d, %s): %d threads and 1 thread differ", n, d, want, MET[metric], th);
@@ -334,7 +338,7 @@ int main(int argc, char **argv) {
 #endif
   vg_seed(getenv("VERIF_SEED") ? atol(getenv("VERIF_SEED")) : 0);
   vx_describe("build", H_TSAN ? "clang ThreadSanitizer, small subset, free-running threads" : "gcc ASan+UBSan");
-  vx_describe("alphabet", "n in {3,4,5,8,13,30,80} x d in {1,2,3,6} x general-position families (selection, quick tier: n <= 30); selection: {MDC, MaxDis+MaxDis_Fast} x 3 metrics x ALL sizes 1..n, KMeansppCenters x ALL sizes 1..n x seeds; "
+  vx_describe("alphabet", "n in {3,4,5,8,13,30,80} x d in {1,2,3,6} x general-position families (selection, quick tier: n <= 30); selection: {MDC, MaxDis+MaxDis_Fast} x 3 metrics x ALL sizes 1..n (MaxDis also with every coordinate + 1e7, n <= 13 in the quick tier), KMeansppCenters x ALL sizes 1..n x seeds; "
               "k-means: k = 1..min(6,n) x initialiser {random, kmeans++, MDC, MaxDis} x seeds (random initialisers) x data scale {1, 1e-4}; thread counts {1,2,3,8} (thorough: 1..8; {1,2,3,8} for the 80-object selections)");
   vx_describe("oracle", "distinct in-range indices of the requested number; first = farthest from centroid and every next maximises the minimum library-metric value to the chosen ones "
               "(long double, candidates within 1e-9 accepted); MaxDis == MaxDis_Fast when no step is a near-tie; labels < k; centroid = mean of its members to 64 eps (members+2) max|x|; "
